@@ -3,3 +3,7 @@ package configuration
 // ZZValidateCurves / ZZValidateFans expose the section validators to harnesses in other packages (overlay only).
 func ZZValidateCurves(c *Configuration) error { return validateCurves(c) }
 func ZZValidateFans(c *Configuration) error   { return validateFans(c) }
+
+var zzNames = []string{"a", "b", "c", "d"}
+
+func zzName(prefix string, i int) string { return prefix + zzNames[i] }
